@@ -82,6 +82,74 @@ fn main() {
                 Err(p) => p,
             }
         }
+        ["patch", rest @ ..] => match catch(|| patch_op(rest)) {
+            Ok(Some(s)) => s,
+            Ok(None) => "bad-op".into(),
+            Err(p) => p,
+        },
         _ => "bad-op".into(),
     });
+}
+
+/// `patch CC NEC {AA}*NEC NPIX {MODE ALPHA CLAMP}*(1+NEC) base.. ref..` (values as f32 bit
+/// patterns, channel by channel): the real `blend::patch` through hook H2.
+fn patch_op(w: &[&str]) -> Option<String> {
+    use jxl_frame::data::{BlendingModeInformation, PatchBlendMode, PatchRef, PatchTarget};
+    use jxl_image::{ExtraChannelInfo, ExtraChannelType, ImageHeader, ImageMetadata, SizeHeader};
+    use jxl_oxide_common::BundleDefault;
+    let mut it = w.iter();
+    let mut num = || it.next()?.parse::<i64>().ok();
+    let cc = num()? as usize;
+    let nec = num()? as usize;
+    let mut ec_info = Vec::new();
+    for _ in 0..nec {
+        let aa = num()?;
+        let ty = if aa < 0 {
+            ExtraChannelType::Depth
+        } else {
+            ExtraChannelType::Alpha { alpha_associated: aa != 0 }
+        };
+        ec_info.push(ExtraChannelInfo { ty, ..Default::default() });
+    }
+    let npix = num()? as usize;
+    let mut blending = Vec::new();
+    for _ in 0..1 + nec {
+        let mode = PatchBlendMode::try_from(num()? as u32).ok()?;
+        let alpha_channel = num()? as u32;
+        let clamp = num()? != 0;
+        blending.push(BlendingModeInformation { mode, alpha_channel, clamp });
+    }
+    let mut grids = Vec::new();
+    for _ in 0..2 {
+        let mut chans = Vec::new();
+        for _ in 0..cc + nec {
+            let mut v = Vec::new();
+            for _ in 0..npix {
+                v.push(f32::from_bits(num()? as u32));
+            }
+            chans.push(v);
+        }
+        grids.push(chans);
+    }
+    let mut size = SizeHeader::default_with_context(());
+    size.width = npix as u32;
+    size.height = 1;
+    let mut metadata = ImageMetadata::default_with_context(());
+    metadata.xyb_encoded = false;
+    metadata.ec_info = ec_info;
+    let image = ImageHeader { size, metadata };
+    let patch_ref = PatchRef {
+        ref_idx: 0,
+        x0: 0,
+        y0: 0,
+        width: npix as u32,
+        height: 1,
+        patch_targets: vec![PatchTarget { x: 0, y: 0, blending }],
+    };
+    let out = jxl_render::verif_region::patch_values_probe(&image, cc, &grids[0], &grids[1], &patch_ref).ok()?;
+    let chans: Vec<String> = out
+        .iter()
+        .map(|ch| ch.iter().map(|v| v.to_bits().to_string()).collect::<Vec<_>>().join(" "))
+        .collect();
+    Some(format!("ok {}", chans.join(" | ")))
 }
